@@ -92,6 +92,7 @@ class C14(Check):
             for conv in ('geo2ecef', 'ecef2enu', 'enu2ecef', 'geo2enu'):
                 js.append(dict(kind='long', n=n, conv=conv))
         js.append(dict(kind='nearbase'))
+        js.append(dict(kind='basemut'))      # leftover-state probe: the same base object used again after it was edited in place
         return js
 
     def patches(self, job):
@@ -200,6 +201,22 @@ class C14(Check):
                     ctx.fail('the track does not record the (geographic) base it used')
                     return
                 ctx.prove(z3.And(zreal(rb.lon) == zreal(bg.lon), zreal(rb.lat) == zreal(bg.lat), zreal(rb.hgt) == zreal(bg.hgt)), 'after re-basing the track records the new base')
+                return
+            if kind == 'basemut':
+                b = oc.GeoCoords(eng.real('blon', -170, 170), eng.real('blat', -80, 80), eng.real('bh', -1000, 9000))
+                p = oc.GeoCoords(eng.real('lon', -180, 180), eng.real('lat', -89.9, 89.9), eng.real('h', -1000, 10000))
+                p.toENUCoords(b)
+                b.toENUCoords(b)
+                b.lon, b.lat, b.hgt = b.lon + 0.5, b.lat - 0.25, b.hgt + 10.0        # the caller moves the reference point in place ...
+                got = p.toENUCoords(b)                                                # ... and converts with the same object again
+                fresh = oc.GeoCoords(b.lon, b.lat, b.hgt)
+                want = p.toECEFCoords().toENUCoords(fresh.toECEFCoords())
+                zero = b.toENUCoords(b)
+                ctx.reach()
+                if not ctx.prove(z3.And(zreal(got.E) == zreal(want.E), zreal(got.N) == zreal(want.N), zreal(got.U) == zreal(want.U)),
+                                 'a conversion with a base object edited in place uses the base as it is now'):
+                    return
+                ctx.prove(z3.And(zreal(zero.E) == 0, zreal(zero.N) == 0, zreal(zero.U) == 0), 'the local coordinates of the (edited) base itself are (0, 0, 0)')
                 return
             if kind == 'nearbase':
                 # ENU -> ENU re-basing between two bases a few metres apart, of points tens of kilometres away
@@ -326,6 +343,21 @@ class C14(Check):
                 w = closed_form(lon, lat, h)
                 if max(abs(p.X - w[0]), abs(p.Y - w[1]), abs(p.Z - w[2])) > 1e-4:
                     return dict(violation='GeoCoords(%r, %r, %r).toECEFCoords() = (%r, %r, %r), closed-form WGS84 gives %r' % (lon, lat, h, p.X, p.Y, p.Z, w))
+                return dict(violation=None, outputs={})
+            if kind == 'basemut':
+                b = oc.GeoCoords(float(inp['blon']), float(inp['blat']), float(inp['bh']))
+                p = oc.GeoCoords(float(inp['lon']), float(inp['lat']), float(inp['h']))
+                p.toENUCoords(b)
+                b.toENUCoords(b)
+                b.lon, b.lat, b.hgt = b.lon + 0.5, b.lat - 0.25, b.hgt + 10.0
+                got = p.toENUCoords(b)
+                be = closed_form(b.lon, b.lat, b.hgt)
+                w = rot_enu(*closed_form(p.lon, p.lat, p.hgt), be, b.lon, b.lat)
+                if max(abs(got.E - w[0]), abs(got.N - w[1]), abs(got.U - w[2])) > 1e-3:
+                    return dict(violation='%s converted with the base %s (edited in place after an earlier conversion) gives (%r, %r, %r), the rotation about that base gives %r' % (p, b, got.E, got.N, got.U, w))
+                z0 = b.toENUCoords(b)
+                if max(abs(z0.E), abs(z0.N), abs(z0.U)) > 1e-6:
+                    return dict(violation='the edited base %s has local coordinates (%r, %r, %r)' % (b, z0.E, z0.N, z0.U))
                 return dict(violation=None, outputs={})
             if kind == 'nearbase':
                 from tracklib.core import Track, Obs, ObsTime
